@@ -4,6 +4,7 @@ from sa.report import Check
 from sa.rules import pipeline as P
 from sa.rules import ranges as RG
 from sa.rules import traversal as T
+from sa.rules import flow_rules as FL
 from sa.rules import validators as V
 
 
@@ -30,6 +31,7 @@ def main(tier):
     chk.run("R-VALIDATORS", P.validators, r, floor=40)
     chk.run("R-NAMEDKINDS", P.namedkinds, r, s, cx.sites, floor=10)
     chk.run("R-INCIDENTAL-PURE", T.incidental_pure, r, s, cx.sites, floor=8)
+    chk.run("R-DEADFLAG", FL.deadflag, r, modules=("constraints.py", "attribute_checker.py", "attribute_util.py"), floor=1)
     chk.run("R-SKIPLOSS", T.skiploss, r, s, cx.sites, modules=("constraints.py", "attribute_checker.py"), floor=2)
     chk.run("R-BOUNDARY", RG.boundary, r, floor=130)
     chk.run("R-INTRANGE", RG.intrange, r, parts=('gate', 'leaf'), floor=150)
